@@ -735,7 +735,24 @@ def inject(ctx):
         nv_ = strip(dict(pv_[2]).get('name', ('x',))) if pv_[0] == 'agg' else (pv_ if pv_[0] == 'var' else ('x',))
         if nv_[0] == 'field' and nv_[2] == 'name':
             nv_ = strip(nv_[1])
+        if nv_[0] == 'var' and 'function::Function' in cf.local_ty(nv_[1]) and not cf.local_ty(nv_[1]).startswith('std::string'):
+            # the pushed function is built by constructors / builder calls (possibly in a helper): the decision table of its name
+            rows_ = field_table(cf, nv_, 'name', kinds=True) or []
+            flat, seen_rows = [], set()
+            for cs_, v_, k_ in rows_:
+                for c2_, v2_ in value_table(cf, v_):
+                    # conditions that decide other fields (is there a doc, a return type) multiply the rows without touching the name
+                    cc_ = [(c_, l_) for c_, l_ in list(cs_) + list(c2_) if not (isinstance(c_, tuple) and c_ and c_[0] == 'discr')]
+                    key_ = (repr(cc_), repr(strip(v2_)))
+                    if key_ not in seen_rows:
+                        seen_rows.add(key_)
+                        flat.append((cc_, expand(cf, v2_)))
+            overs = [(('rows', cs_), v_) for cs_, v_ in flat if any(isinstance(x, tuple) and x and x[0] == 'call' and x[1].endswith('fmt::format') for x in walk(v_))]
+            bases2 = [1 for cs_, v_ in flat if not any(isinstance(x, tuple) and x and x[0] == 'call' and x[1].endswith('fmt::format') for x in walk(v_))]
+            nv_ = ('rows',)
+        found = nv_[0] == 'rows'
         if nv_[0] == 'var':
+            found = True
             dsn = cf.defs().get(nv_[1], [])
             overs, bases2 = [], []
             for dd in dsn:
@@ -748,22 +765,25 @@ def inject(ctx):
                     tgt_ = strip(cf.expr_of_operand(a0_))
                     if tgt_ == nv_ or (tgt_[0] in ('ref', 'addr') and strip(tgt_[1]) == nv_) or any(y == nv_ for y in walk(tgt_)):
                         overs.append(((c_['block'],), expand(cf, cf.expr_of_operand(c_['term']['args'][1]))))
-            if len(overs) == 1:
-                dd, de = overs[0]
-                conds = [(c_, l_) for b_, c_, l_ in _edge_conds(cf, dd[0])]
-                cond_ok = len(conds) == 1 and conds[0][1] is True and is_call(strip(conds[0][0]), 'contains')
-                disp = [strip(x[2][0]) for x in walk(de) if isinstance(x, tuple) and x and x[0] == 'call' and re.search(r"Argument(::<[^>]*>)?::new_display$", x[1])]
-                def own_name(a):
-                    a = strip(expand(cf, a))
-                    return any(isinstance(y, tuple) and y and ((y[0] == 'field' and y[2] == 'name') or y == nv_) for y in walk(a)) and not any(
-                        isinstance(y, tuple) and y and y[0] == 'var' and y != nv_ and not str(cf.names.get(y[1], '')).startswith('function') for y in walk(a))
-                args_ok = len(disp) == 2 and disp[0][0] in ('upvar', 'arg') and own_name(disp[1])
-                fmt = [x for x in walk(de) if isinstance(x, tuple) and x and x[0] == 'bytes'] or [x for x in walk(de) if isinstance(x, tuple) and x and x[0] == 'str']
-                sep_ok = '_' in show(de)
-                okren = cond_ok and args_ok and sep_ok and len(bases2) >= 1
-                detren = 'renamed under %s; arguments %s; base definitions %d' % ([(show(c_)[:40], l_) for c_, l_ in conds], [show(a_)[:30] for a_ in disp], len(bases2))
-            else:
-                detren = '%d renaming definitions of the name' % len(overs)
+        if found and len(overs) == 1:
+            dd, de = overs[0]
+            conds = dd[1] if dd[0] == 'rows' else [(c_, l_) for b_, c_, l_ in _edge_conds(cf, dd[0])]
+            cond_ok = len(conds) == 1 and conds[0][1] is True and is_call(strip(conds[0][0]), 'contains')
+            disp = [strip(x[2][0]) for x in walk(de) if isinstance(x, tuple) and x and x[0] == 'call' and re.search(r"Argument(::<[^>]*>)?::new_display$", x[1])]
+
+            def own_name(a):
+                a = strip(expand(cf, a))
+                return any(isinstance(y, tuple) and y and ((y[0] == 'field' and y[2] == 'name') or y == nv_) for y in walk(a)) and not any(
+                    isinstance(y, tuple) and y and y[0] == 'var' and y != nv_ and not str(cf.names.get(y[1], '')).startswith('function') for y in walk(a))
+            d0 = disp[0] if disp else ('x',)
+            while d0[0] == 'call' and d0[2] and re.search(r'(Deref>::deref|::as_str|::borrow|::as_ref|::clone)$', d0[1]):
+                d0 = strip(d0[2][0])
+            args_ok = len(disp) == 2 and d0[0] in ('upvar', 'arg') and own_name(disp[1])
+            sep_ok = '_' in show(de)
+            okren = cond_ok and args_ok and sep_ok and len(bases2) >= 1
+            detren = 'renamed under %s; arguments %s; base definitions %d' % ([(show(c_)[:40], l_) for c_, l_ in conds], [show(a_)[:30] for a_ in disp], len(bases2))
+        elif found:
+            detren = '%d renaming definitions of the name' % len(overs)
     except Exception as e_:
         detren = 'not understood: %r' % (e_,)
     ctx.ob(['C07'], 'R-SLP', 'C07|rename-only-on-clash', okren,
